@@ -14,6 +14,7 @@ CONSTANTS EnvMode = "%(mode)s"
  DefinedMids = {%(mids)s}
  Damage = %(damage)s
  OptSet <- %(optset)s
+ HRaise = %(hraise)s
 INVARIANT TypeOK
 INVARIANT CurShape
 INVARIANT SliceOK
@@ -33,10 +34,11 @@ def defined_mids(bundle):
     return sorted({int(i.split("_")[0]) for i in bundle["defs"] if "_" not in i})
 
 
-def mc(rep, mode, budget, maxpay=1, damage=False, optset="OptCore", liveness=True, bundle=None, workers=8, extra=()):
+def mc(rep, mode, budget, maxpay=1, damage=False, optset="OptCore", liveness=True, bundle=None, workers=8, extra=(), hraise=False):
     mids = defined_mids(bundle) if bundle else [1005]
     cfg = MC_CFG % dict(mode=mode, maxpay=maxpay, budget=budget, mids=", ".join(map(str, mids)),
-                        damage="TRUE" if damage else "FALSE", optset=optset, live="PROPERTY Terminates" if liveness else "")
+                        damage="TRUE" if damage else "FALSE", optset=optset, live="PROPERTY Terminates" if liveness else "",
+                        hraise="TRUE" if hraise else "FALSE")
     res = tlc.run("MC_Framer", cfg, workers=workers, heap="3g", coverage=True, extra=extra, timeout=3000)
     tlc.must_ok(res, f"MC_Framer {mode} budget={budget}")
     cov = res.action_coverage()
@@ -71,16 +73,16 @@ class Traces:
         self.results = {}
 
     def add(self, data, kind="scripted", validate=1, parsed=True, quit=1, handler=True, faults=None, seg=None,
-            bufsize=4096, labelmsm=1, rnd=None, use_iter=False, **meta):
+            bufsize=4096, labelmsm=1, rnd=None, use_iter=False, hraise=None, **meta):
         tid = len(self.traces) + 1
         stream, wrap = make_stream(kind, data, rnd, faults, seg, bufsize)
         try:
             ev, res = framer_rec.run_reader(stream, validate=validate, parsed=parsed, quit=quit, handler=handler,
-                                            labelmsm=labelmsm, wrap=wrap, use_iter=use_iter, max_calls=len(data) + 50)
+                                            labelmsm=labelmsm, wrap=wrap, use_iter=use_iter, max_calls=len(data) + 50, hraise=hraise)
         finally:
             if kind == "socket":
                 stream.close()
-        self.traces.append({"tid": tid, "validate": int(validate), "parsed": bool(parsed), "quit": int(quit), "ev": ev})
+        self.traces.append({"tid": tid, "validate": int(validate), "parsed": bool(parsed), "quit": int(quit), "hraise": bool(hraise), "ev": ev})
         meta.update(kind=kind, validate=validate, parsed=parsed, quit=quit, handler=handler, data=data, faults=faults, seg=seg)
         self.meta[tid] = meta
         self.results[tid] = res
